@@ -100,7 +100,7 @@ PROPS = {
     },
     "C09": {
         "title": "With sync=always an acknowledged write survives power loss, merges included",
-        "rules": [k2.p2_sync_always, k2.p19_sync_chain, k2m.p5_merge_outputs_before_unlink, k5.ghint_hint_validation, k4.v1_log_iterator_eof, k8.s12_config_setters, k9.s12b_config_keys],
+        "rules": [k2.p2_sync_always, k2.p19_sync_chain, k2m.p5_merge_outputs_before_unlink, k5.ghint_hint_validation, k4.v1_log_iterator_eof, k8.s12_config_setters, k9.s12b_config_keys, k10.s12c_shipped_config_agrees, k10.s12d_env_separator],
         "decides": "Always ⇒ every successful append is followed by a checked fsync of the same file before Ok and before any rollover; LogWriter::sync reaches File::sync_all; merge flushes+fsyncs data AND hint outputs (checked) before replacing them, before the first unlink and before Ok; hint entries are admitted only if within the data file; the sync chain is unconditional down to File::sync_all; a torn tail after power loss is skipped, not fatal; Config::sync stores the strategy; the settings key `sync` (every field's own name) is accepted by the derived deserializer of the configuration structs",
         "not_decided": "the storage stack below fsync; the power-loss model itself",
     },
@@ -137,7 +137,7 @@ PROPS = {
     },
     "C15": {
         "title": "The connection limit holds and slots are never leaked",
-        "rules": [k2s.p10_accept_loop, k1.w5_permit_ops, k4.v3_read_frame_eof, k8.p10b_accept_backoff, k9.p12b_read_error_ends_handler],
+        "rules": [k2s.p10_accept_loop, k1.w5_permit_ops, k4.v3_read_frame_eof, k8.p10b_accept_backoff, k9.p12b_read_error_ends_handler, k9.s12b_config_keys, k10.s12c_shipped_config_agrees, k10.s12d_env_separator],
         "decides": "take-and-forget before accept once per iteration; handler built and moved into the task on every continuing path; the only release is +1 in Handler's Drop (runs on return, error, panic, cancellation); semaphore sized from max_connections; no Handler leak; the accept back-off never takes or leaks permits and gives up only after its maximum; a half-sent frame ends the handler; a handler whose read failed leaves (and frees its slot) instead of spinning",
         "not_decided": "the run-time count of live connections",
     },
@@ -155,7 +155,7 @@ PROPS = {
     },
     "C18": {
         "title": "Background merge and sync follow the configured policy",
-        "rules": [k4.v4_never_policy, k2s.p15_interval_loops, k2.p19_sync_chain, k1.w6_merge_sync_entry, k3.s5_trigger_threshold_roles, k8.v4b_window_policy, k8.s12_config_setters, k9.s13_counter_arithmetic, k9.s12b_config_keys],
+        "rules": [k4.v4_never_policy, k2s.p15_interval_loops, k2.p19_sync_chain, k1.w6_merge_sync_entry, k3.s5_trigger_threshold_roles, k8.v4b_window_policy, k8.s12_config_setters, k9.s13_counter_arithmetic, k9.s12b_config_keys, k10.s12c_shipped_config_agrees, k10.s12d_env_separator],
         "decides": "Never ⇒ no path to merge; merge only behind can_merge()==true; triggers decide whether, thresholds decide which, like compared with like in the selecting direction; each tick of the sync loop reaches the fsync; periodic sync exactly under IntervalMs with its period; the Window policy compares the hour with start (<) and end (>); Config setters and the file-then-environment source order take effect; the jitter sampler accepts a zero-width range; fragmentation() is dead/(dead+live) and 0 without dead keys (what the triggers compare); every configuration field can be set under its own name from a file or the environment",
         "not_decided": "timing ('within one interval plus jitter')",
     },
